@@ -139,6 +139,18 @@ class SymEx:
             m = self._guided(neg if strong is None else strong) or \
                 (self._guided(neg) if strong is not None else None)
             if m is None:
+                # last resort: any input of this path (model of the path condition alone);
+                # if the real code fails the claim there the replay will say so, otherwise
+                # the obligation stays inconclusive
+                try:
+                    r3, m3 = c._check()
+                except C.BudgetExceeded:
+                    r3, m3 = 'unknown', None
+                if r3 == 'sat':
+                    cl = Claim(label, 'cand', 'solver unknown; path witness tried',
+                               self._model(m3))
+                    self.claims.append(cl)
+                    return False
                 self.claims.append(Claim(label, 'inconclusive', 'solver unknown'))
                 return False
             self.claims.append(Claim(label, 'cand', detail, self._model(m)))
@@ -271,11 +283,26 @@ class SymEx:
                            strong=z3.Or(strongs) if len(strongs) > 1 else strongs[0])
 
     def lt(self, a, b, label):
+        """a < b elementwise (strict in real arithmetic; counterexamples are sought with a
+        margin first so that they survive float rounding)."""
         fa, fb = _flat(a), _flat(b)
         if len(fb) == 1:
             fb = fb * len(fa)
-        conds = [P.cmp(x, y, '<') for x, y in zip(fa, fb)]
-        return self.true(conds, label)
+        if len(fa) == 1:
+            fa = fa * len(fb)
+        oks, strongs = [], []
+        for x, y in zip(fa, fb):
+            d = P.sub(x, y)
+            if not isinstance(d, SymReal):
+                if not d < 0:
+                    return self._prove(False, label, detail='concrete %r >= %r' % (x, y))
+                continue
+            oks.append(d.z3() < 0)
+            strongs.append(d.z3() >= P._rv(Fr(1, 10 ** 6)))
+        if not oks:
+            return self._prove(True, label)
+        return self._prove(z3.And(oks) if len(oks) > 1 else oks[0], label,
+                           strong=z3.Or(strongs) if len(strongs) > 1 else strongs[0])
 
     def fail(self, label, detail=None):
         return self._prove(False, label, detail=detail)
@@ -416,7 +443,10 @@ class ConEx:
         return self._rec(ok, label, None if ok else 'max excess %g' % float(np.max(a_ - b_)))
 
     def lt(self, a, b, label):
-        ok = bool(np.all(np.asarray(a, dtype=float) < np.asarray(b, dtype=float)))
+        a_ = np.asarray(a, dtype=float)
+        b_ = np.asarray(b, dtype=float)
+        # strict in real arithmetic; in float a tie within rounding is not a refutation
+        ok = bool(np.all(a_ < b_ + 1e-12 * (1.0 + np.abs(b_))))
         return self._rec(ok, label)
 
     def fail(self, label, detail=None):
@@ -485,6 +515,28 @@ def concrete_run(h, model, case, twin):
 
 def run_path(c, h, case, twin):
     """One symbolic execution of the harness along the path fixed by c's prefix."""
+    try:
+        return _run_path(c, h, case, twin)
+    except C.BudgetExceeded as e:
+        # e.g. an integer with too many feasible values: keep the path prefix's witness so
+        # that the concrete fallback below can still look at this path
+        try:
+            old = c.ex.deadline
+            c.ex.deadline = time.time() + 20
+            r, m = c._check()
+            c.ex.deadline = old
+        except BaseException:
+            raise e
+        if r != 'sat':
+            raise
+        ex = SymEx(c, case, twin)
+        ex.choices = [d[1] for d in c.trace if isinstance(d, tuple) and d[0] == 'ch']
+        return {'claims': [], 'error': ('engine', 'budget: %s' % e, ''), 'witness': ex._model(m),
+                'notes': list(c.notes), 'covered': {}, 'choices': list(ex.choices),
+                'n_inputs': len(c.inputs), 'n_atoms': len(c.atoms), 'stop': str(e)}
+
+
+def _run_path(c, h, case, twin):
     ex = SymEx(c, case, twin)
     mods = h.modules() if callable(h.modules) else list(h.modules)
     extra = h.extra_swaps(ex) if h.extra_swaps else None
@@ -513,8 +565,11 @@ def run_path(c, h, case, twin):
                        traceback.format_exc(limit=8))
         # witness for this path (reachability + translator validation)
         witness = None
-        if err is None:
-            r, m = c._check()
+        if err is None or err[0] == 'engine':
+            try:
+                r, m = c._check()
+            except C.BudgetExceeded:
+                r = 'unknown'
             if r == 'sat':
                 witness = ex._model(m)
     return {'claims': ex.claims, 'error': err, 'witness': witness,
@@ -541,6 +596,35 @@ def run_case(h, case, twin, tier, seed, budget):
     }
     for (c, res) in paths:
         out['n_inputs'] = max(out['n_inputs'], res['n_inputs'])
+        if res.get('stop'):
+            out['exhausted'] = False
+            out['budget_note'] = res['stop']
+        if res['error'] is not None and res['error'][0] == 'engine' and res['witness'] is not None:
+            # concolic fallback: the engine could not continue on this path; replay the
+            # solver's witness for the path prefix on the real code.  A failing claim there
+            # is a reproduced violation; a clean replay leaves the engine error standing.
+            rep = concrete_run(h, res['witness'], case, twin)
+            done = {cl.label for cl in res['claims']}
+            for (l, d) in rep.failed:
+                if l in done:
+                    continue
+                done.add(l)
+                lab = out['labels'].setdefault(l, {'held': 0, 'violated': 0, 'inconclusive': 0})
+                lab['violated'] += 1
+                out['violations'].append({'label': l, 'model': res['witness'],
+                                          'sym_detail': 'engine stopped (%s); path witness '
+                                          'replayed concretely' % res['error'][1][:120],
+                                          'replay_detail': d, 'case': case, 'twin': twin,
+                                          'harness': h.name})
+            if rep.error not in (None, 'assumption') and 'no-exception' not in done:
+                lab = out['labels'].setdefault('no-exception', {'held': 0, 'violated': 0,
+                                                                'inconclusive': 0})
+                lab['violated'] += 1
+                out['violations'].append({'label': 'no-exception', 'model': res['witness'],
+                                          'sym_detail': res['error'][1][:200],
+                                          'replay_detail': rep.error, 'case': case,
+                                          'twin': twin, 'harness': h.name})
+            res['witness'] = None
         for k, v in res['covered'].items():
             out['covered'][k] = out['covered'].get(k, 0) + v
         if res['error'] is not None and res['error'][0] in ('engine', 'harness'):
